@@ -24,7 +24,7 @@ let res_str = function Some Success -> "ok" | Some Failed -> "failed" | Some Fai
 let run () = iter_lines (fun line ->
   let rest = String.sub line 2 (String.length line - 2) in
   match split_on '|' rest with
-  | [docs_s; ct; ex; json; entries; marks; leftover] ->
+  | [docs_s; ct; ex; json; entries; marks; leftover; late] ->
     let docs = List.mapi parse_doc (split_on ';' docs_s) in
     let cli_timeout = (let v = D_config.field ct in if v = "-" then None else Some (1000 * int_of_string v)) in
     let mains = List.filter (fun d -> d.role = 'm') docs in
@@ -86,6 +86,8 @@ let run () = iter_lines (fun line ->
     if strip imarks <> strip exp_marks then report "DIFF:marks" ("model=" ^ String.concat "," exp_marks) line;
     if json <> "json=1" then report "SPEC:C19" "json renderer output is not well-formed JSON" line;
     if leftover <> "leftover=0" then report "SPEC:C18" ("directories left in TMPDIR after the run: " ^ leftover) line;
+    if late <> "late=-" then report "SPEC:C14" ("a command that ran into its limit was not aborted, it went on running after scrut had reported the timeout: " ^ late) line;
+    if has 'T' || has 'G' then bump "waited-for-late-effects";
     (* ---- oracles on what the implementation reported ---- *)
     let kind_of e = (match String.rindex_opt e '=' with Some i -> String.sub e (i + 1) (String.length e - i - 1) | None -> "?") in
     let any k = List.exists (fun e -> kind_of e = k) ientries in
